@@ -1,21 +1,28 @@
 #!/usr/bin/env bash
 # Dev tool: re-run all quick checks on every confirmed seed under /verif/seeded and refresh meta.json.
 #   tools/recheck_seeds.sh [shard k] [of n]      (each shard uses its own scratch copy /tmp/mutR<k>)
+#   env PROPS="C02 C03": only these checks are re-run and only their entries in meta.json are replaced;
+#   env SEEDS=<regex>: only seeds whose id matches
 K="${1:-0}"; N="${2:-1}"
 cd /verif
 i=0
 for d in seeded/*/; do
   ID=$(basename $d)
   [ -f seeded/$ID/patch.diff ] || continue
+  if [ -n "$SEEDS" ] && ! echo "$ID" | grep -Eq "$SEEDS"; then continue; fi
   i=$((i+1))
   [ $((i % N)) -eq "$K" ] || continue
-  C=$(MUT_SCRATCH=/tmp/mutR$K python3 tools/seedcheck.py seeded/$ID/patch.diff 2>&1)
+  C=$(MUT_SCRATCH=/tmp/mutR$K python3 tools/seedcheck.py seeded/$ID/patch.diff $PROPS 2>&1)
   echo "$C" | sed "s/^/$ID: /"
   CAUGHT=$(echo "$C" | grep "^CAUGHT-BY:" | sed 's/CAUGHT-BY: //')
   [ -n "$CAUGHT" ] || continue
-  python3 - "$ID" "$CAUGHT" <<'PY'
+  python3 - "$ID" "$CAUGHT" "$PROPS" <<'PY'
 import json,sys
-i,c=sys.argv[1:3]
-p=f'/verif/seeded/{i}/meta.json'; m=json.load(open(p)); m['quick_checks_that_caught_it']=[] if c in('none','') else c.split(); json.dump(m,open(p,'w'),indent=1)
+i,c,props=sys.argv[1:4]
+new=[] if c in('none','') else c.split()
+p=f'/verif/seeded/{i}/meta.json'; m=json.load(open(p))
+if props.strip():
+    new=sorted(set(x for x in m['quick_checks_that_caught_it'] if x not in props.split())|set(new))
+m['quick_checks_that_caught_it']=new; json.dump(m,open(p,'w'),indent=1)
 PY
 done
